@@ -41,7 +41,10 @@ func genList(r *gen.R, maxn int) []string {
 
 func (subsDom) Gen(r *gen.R, tier string, emit func(string)) {
 	names := []string{"", "svc", "a", "svc.sub"}
-	kinds := []string{"-", "g", "c", "u", "n", "a", "ga", "gca", "ca"}
+	// handler kinds; a leading ^ puts the handler on the service's root resource (pattern ""),
+	// a leading / splits it over a placeholder node (item.$id: the non-access kinds) and a node
+	// below it (item.$id.secret: access)
+	kinds := []string{"-", "g", "c", "u", "n", "a", "ga", "gca", "ca", "^g", "^a", "^gca", "/ga", "/ca", "/a"}
 	queues := []string{"", "q"}
 	one := func(name, kind, queue string, rl, al []string) {
 		args := []string{"serve", name, kind, queue, "R"}
@@ -131,7 +134,45 @@ func (subsDom) Exec(a []string) string {
 				opts = append(opts, res.Access(res.AccessGranted))
 			}
 		}
-		s.Handle("res", opts...)
+		switch {
+		case strings.HasPrefix(kinds, "^"):
+			s.Handle("", opts...)
+		case strings.HasPrefix(kinds, "/"):
+			var upper, lower []res.Option
+			for i, k := range strings.TrimLeft(kinds, "/") {
+				_ = i
+				if k == 'a' {
+					lower = append(lower, res.Access(res.AccessGranted))
+				}
+			}
+			for _, o := range opts {
+				upper = append(upper, o)
+			}
+			// rebuild: the upper node gets everything but access
+			upper = upper[:0]
+			for _, k := range kinds {
+				switch k {
+				case 'g':
+					upper = append(upper, res.GetResource(func(r res.GetRequest) { r.NotFound() }))
+				case 'c':
+					upper = append(upper, res.Call("m", func(r res.CallRequest) { r.OK(nil) }))
+				case 'u':
+					upper = append(upper, res.Auth("m", func(r res.AuthRequest) { r.OK(nil) }))
+				case 'n':
+					upper = append(upper, res.New(func(r res.NewRequest) { r.NotFound() }))
+				}
+			}
+			if len(upper) == 0 {
+				// a handler without any request kind still occupies the node
+				upper = append(upper, res.Model)
+			}
+			s.Handle("item.$id", upper...)
+			if len(lower) > 0 {
+				s.Handle("item.$id.secret", lower...)
+			}
+		default:
+			s.Handle("res", opts...)
+		}
 		if !(rnil && anil) {
 			// SetOwnedResources replaces both; nil stays nil
 			var rr, aa []string
